@@ -2,6 +2,7 @@ package harness
 
 import (
 	"fmt"
+	"github.com/platinummonkey/go-concurrency-limits/verifsim"
 	"math/rand"
 	"os"
 	"runtime"
@@ -28,6 +29,10 @@ type Prop struct {
 	Race      bool `json:"race"` // needs the -race build
 	// ExpectedProbes: reach probes the workload is meant to hit; reported with a count of 0 when never hit
 	ExpectedProbes []string `json:"expected_probes"`
+	// ArmLockProbes: the property drives the library from one goroutine (history driver); the lock probes are armed
+	// for that goroutine, so a lock it would have to wait for - necessarily one it holds itself, or one leaked by an
+	// earlier call - is reported as lock-deadlock instead of hanging the worker
+	ArmLockProbes bool `json:"arm_lock_probes"`
 }
 
 var Props = map[string]*Prop{}
@@ -120,11 +125,27 @@ func Execute(tt *testing.T, p *Prop, tape *Tape, verbose bool) *Run {
 	body := func() {
 		defer func() {
 			if e := recover(); e != nil {
+				if wb, ok := e.(verifsim.WouldBlock); ok {
+					if r.V == nil {
+						r.Fail("lock-deadlock", wb.Site, "the single goroutine driving the library would block forever on the lock at %s: it holds that lock itself, or an earlier call returned without releasing it", wb.Site)
+					}
+					return
+				}
 				buf := make([]byte, 4096)
 				n := runtime.Stack(buf, false)
 				r.Fail("panic", firstLine(fmt.Sprint(e)), "panic on the driving goroutine: %v\n%s", e, buf[:n])
 			}
 		}()
+		if p.ArmLockProbes {
+			arm := NewSched(tape)
+			arm.ArmOnly = true
+			arm.Activate()
+			defer func() {
+				if curSched.Load() == arm {
+					arm.Deactivate()
+				}
+			}()
+		}
 		p.Run(r)
 	}
 	if p.Bubble {
